@@ -25,8 +25,8 @@ from . import graphref as gr
 
 PROP = "C18"
 TIERS = {
-    "quick": {"runs": 4000, "wall": 75, "chunk": 40},
-    "thorough": {"runs": 300000, "wall": 840, "chunk": 100},
+    "quick": {"runs": 12000, "wall": 75, "chunk": 60},
+    "thorough": {"runs": 280000, "wall": 840, "chunk": 200},
 }
 STEP_CAP = 3_000_000
 SHRINK_BUDGET = 200
